@@ -35,9 +35,13 @@ def case(rng, k):
         for j, s in enumerate(rng.sample(TARGET_SLOTS, 5)):
             decls.append(re.sub(r"\b([fghklmn]|S|v)\b", lambda m: m.group(1) + str(j), s))
     else:
+        inner = re.sub(r"\b[xy]\b", lambda m: rng.choice(["3", "q", "a.b"]), minus)
+        inner = re.sub(r"\bf\b", "alpha", inner); inner = re.sub(r",?\s*\.\.\.", "", inner)
+        NEST = ["wrap(%s)" % inner, "a + %s*2" % inner, "func() { _ = %s }" % inner, "[]any{%s, 1}" % inner, "(%s)" % inner, "m[%s]" % inner]
         for j in range(rng.randint(2, 6)):
             code = minus
-            code = re.sub(r"\bx\b", lambda m: rng.choice(FILL), code, count=1)
+            # sometimes the captured code itself contains an instance, one or more levels down
+            code = re.sub(r"\bx\b", lambda m: rng.choice(NEST) if rng.random() < 0.3 else rng.choice(FILL), code, count=1)
             code = re.sub(r"\by\b", lambda m: rng.choice(FILL), code)
             code = re.sub(r"\bf\b", lambda m: rng.choice(["alpha", "beta"]), code)
             code = re.sub(r"\.\.\.", lambda m: ", ".join(rng.choice(FILL) for _ in range(rng.randint(0, 3))), code)
